@@ -152,7 +152,9 @@ Step(cc, code, ip, stk, loops, s, ctx) ==
                    (LET kind == Get(ctx.host, name)
                         s1 == [s0 EXCEPT !.calls = Append(s0.calls, <<name, args>>)] IN
                     Back(IF kind[1] = "log" THEN V ELSE IF kind[1] = "same" THEN (IF arg > 0 THEN args[1] ELSE N)
-                         ELSE IF kind[1] = "pack" THEN A(args) ELSE kind[2], s1))
+                         ELSE IF kind[1] = "pack" THEN A(args)
+                         ELSE IF kind[1] = "count" THEN I(Cardinality({i \in 1..Len(s1.calls) : s1.calls[i][1] = name}))
+                         ELSE kind[2], s1))
               ELSE IF HasFunc(cc, name) THEN
                    (LET f == FuncBody(cc, name)  params == f[2]  depth == Len(s0.sc) IN
                     IF Len(params) # arg THEN [s |-> VMFail(s0), out |-> STOP]
